@@ -52,6 +52,8 @@ def _is_prefix(key, k2):
     return False
 
 
+_BASE = re.compile(r"^(len:|\*|src:)?_(\d+)")
+
 NEG = {"Lt": "Ge", "Ge": "Lt", "Gt": "Le", "Le": "Gt", "Eq": "Ne", "Ne": "Eq"}
 
 
@@ -86,6 +88,7 @@ class Analysis:
         self.ok_points = []             # (state, kind) at assignments of Ok-tagged values to _0
         self.ret_states = []
         self.final = False
+        self.debug = False
         self.pending = {}               # callsite id -> info for Ok-summaries
         self.sw_facts = {}              # (bi) -> description of branch facts (for reports)
         self.types = body.prog.types[body.crate]
@@ -1085,10 +1088,15 @@ class Analyzer(Analysis):
         return []
 
     # ------------------------------------------------------------------ join
-    def join(self, B, incoming):
+    def join(self, node, incoming, back_flags):
+        """incoming: list of States; back_flags[i] is True when the i-th edge is a loop back-edge.
+        Loop-carried values become phi symbols owned by this node; candidate invariants about them
+        (lifted facts and constant differences seen on the forward edges) are assumed optimistically and
+        removed, permanently, as soon as one fails on any edge (Houdini): what survives is inductive."""
+        B = node
         if len(incoming) == 1 and B not in self.phi_keys:
             return incoming[0].copy()
-        own = "phi%d:" % B
+        own = "phi%s:" % (B,)
         sticky = self.phi_keys.setdefault(B, set())
         cleaned = []
         must_phi = set()
@@ -1103,15 +1111,18 @@ class Analyzer(Analysis):
             keys &= set(S.store.keys())
         store = {}
         phis = {}
+        live = self.live_in[B[0]] if isinstance(B, tuple) else None
         for k in keys:
+            if live is not None:
+                m = _BASE.match(k)
+                if m and int(m.group(2)) not in live and int(m.group(2)) not in self.always_live:
+                    continue
             vs = [S.store[k] for S in cleaned]
             same = all(v == vs[0] for v in vs[1:])
             if same and k not in must_phi and k not in sticky:
                 store[k] = vs[0]
                 continue
             if all(v is not None and v[0] == "lin" for v in vs):
-                if same and k not in must_phi and len(incoming) > 1 and k in sticky and False:
-                    pass
                 name = own + k
                 los = [lb(v[1], self.iv) for v in vs]
                 his = [ub(v[1], self.iv) for v in vs]
@@ -1121,56 +1132,99 @@ class Analyzer(Analysis):
                 if old is not None:
                     lo = min(lo, old[0])
                     if hi > old[1]:
-                        hi = INF if hi < INF else hi
+                        hi = INF
                     else:
                         hi = old[1]
                 self.iv[name] = (lo, hi)
                 store[k] = ("lin", Lin.sym(name))
                 phis[k] = (name, [v[1] for v in vs])
                 sticky.add(k)
-        # ---- facts
+        # ---- plain facts: those every edge entails
         cand = set()
         for S in cleaned:
             cand |= S.facts
-        # lifted candidates: rewrite a fact about the incoming value of a phi'd key in terms of the phi
-        lifted = set()
-        for k, (name, vs) in phis.items():
-            for i, S in enumerate(cleaned):
+        facts = set()
+        for f in cand:
+            if f.is_const():
+                continue
+            if all((f in S.facts) or entails(S.facts, self.iv, f, 1) for S in cleaned):
+                facts.add(f)
+        if not phis:
+            return State(store, facts)
+        # ---- candidate invariants over the phi symbols
+        fwd = [i for i, bk in enumerate(back_flags) if not bk]
+        has_back = any(back_flags)
+        cands = self.cands.setdefault(B, None)
+        dead = self.dead_cands.setdefault(B, set())
+        gen = set()
+        src = fwd if fwd else list(range(len(cleaned)))
+        for i in src:
+            S = cleaned[i]
+            for k, (name, vs) in phis.items():
                 v = vs[i]
+                # lifted facts: rewrite facts about the incoming value in terms of the phi
                 if len(v.t) == 1 and v.t[0][1] == 1:
                     s0 = v.t[0][0]
                     repl = Lin.sym(name) - v.c
                     n = 0
                     for f in S.facts:
                         if s0 in f.syms():
-                            lifted.add(subst(f, s0, repl))
+                            g = subst(f, s0, repl)
+                            gen.add(g)
                             n += 1
-                            if n > 40:
+                            if n > 60:
                                 break
-                elif v.is_const():
-                    # phi - c relation candidates against other tracked lengths are generated below
-                    pass
-            # interval style candidates: phi <= X for each fact-free bound shared by all preds
-        facts = set()
-        for f in cand:
-            if all((f in S.facts) or entails(S.facts, self.iv, f, 1) for S in cleaned):
-                facts.add(f)
-        for f in lifted:
-            if f in facts:
-                continue
+                # constant differences to other tracked values (phi'd or not)
+                for k2, v2 in S.store.items():
+                    if k2 == k or v2 is None or v2[0] != "lin" or k2.startswith("len:") and False:
+                        continue
+                    if k2 in phis:
+                        other = Lin.sym(phis[k2][0])
+                        d = v - phis[k2][1][i]
+                    elif k2 in store and store[k2][0] == "lin":
+                        other = store[k2][1]
+                        d = v - v2[1]
+                    else:
+                        continue
+                    if not d.is_const() and len(d.t) <= 3:
+                        sympart = d - d.c
+                        if entails(S.facts, self.iv, sympart, 2) and entails(S.facts, self.iv, sympart.scale(-1), 2):
+                            d = Lin.const(d.c)
+                    if d.is_const():
+                        e = Lin.sym(name) - other - d.c
+                        gen.add(e)
+                        gen.add(e.scale(-1))
+        if cands is None:
+            cands = set()
+        # every fact of a forward edge is a candidate too (facts about values that do not change in the loop)
+        for i in fwd:
+            for f in cleaned[i].facts:
+                if not f.is_const():
+                    gen.add(f)
+        fresh = set(g for g in gen if g not in dead and g not in cands and not g.is_const())
+        if len(cands) + len(fresh) > 600:
+            fresh = set(sorted(fresh, key=repr)[:max(0, 600 - len(cands))])
+        cands = cands | fresh
+        keep = set()
+        for f in cands:
             ok = True
             for i, S in enumerate(cleaned):
+                if back_flags[i] and f in fresh:
+                    continue   # the back-edge state was computed before this candidate was assumed
                 g = f
                 for k, (name, vs) in phis.items():
                     g = subst(g, name, vs[i])
-                if any(s.startswith(own) for s in g.syms()):
-                    ok = False
-                    break
-                if not entails(S.facts, self.iv, g, 2):
+                # on a back edge the phi symbols in the edge's facts denote the previous iteration's
+                # values: exactly the induction hypothesis
+                if not entails(incoming[i].facts, self.iv, g, 2):
                     ok = False
                     break
             if ok:
-                facts.add(f)
+                keep.add(f)
+            else:
+                dead.add(f)
+        self.cands[B] = keep
+        facts |= keep
         return State(store, facts)
 
     # ------------------------------------------------------------------ driver
@@ -1215,62 +1269,276 @@ class Analyzer(Analysis):
         order.reverse()
         return order
 
+    def liveness(self):
+        """live-in sets of locals per block (address-taken locals are always live)"""
+        b = self.b
+        nb = len(b.blocks)
+        use = [set() for _ in range(nb)]
+        defs = [set() for _ in range(nb)]
+        always = set(range(0, b.argc + 1))
+
+        def pl_uses(pl, acc):
+            acc.add(pl["l"])
+            for p in pl["p"]:
+                if isinstance(p, dict) and "ix" in p:
+                    acc.add(p["ix"])
+
+        def op_uses(op, acc):
+            if op is not None and op.get("o") in ("copy", "move"):
+                pl_uses(op["pl"], acc)
+
+        for bi, bl in enumerate(b.blocks):
+            u, d = use[bi], defs[bi]
+
+            def see(acc):
+                for l in acc:
+                    if l not in d:
+                        u.add(l)
+            for st in bl["stmts"]:
+                if st["s"] != "assign":
+                    continue
+                rv = st["rv"]
+                acc = set()
+                k = rv["k"]
+                if k in ("use", "cast", "repeat"):
+                    op_uses(rv["op"], acc)
+                elif k == "bin":
+                    op_uses(rv["a"], acc)
+                    op_uses(rv["b"], acc)
+                elif k == "un":
+                    op_uses(rv["a"], acc)
+                elif k == "agg":
+                    for o in rv["ops"]:
+                        op_uses(o, acc)
+                elif k in ("ref", "rawptr", "discr"):
+                    pl_uses(rv["pl"], acc)
+                    if k != "discr" and (not rv["pl"]["p"] or rv["pl"]["p"][0] != "d"):
+                        always.add(rv["pl"]["l"])
+                see(acc)
+                pl = st["pl"]
+                if pl["p"]:
+                    acc2 = set()
+                    pl_uses(pl, acc2)
+                    see(acc2)
+                else:
+                    d.add(pl["l"])
+            t = bl["term"]
+            acc = set()
+            if t["t"] == "switch":
+                op_uses(t["discr"], acc)
+            elif t["t"] == "assert":
+                op_uses(t["cond"], acc)
+                for kk in ("len", "index", "a", "b"):
+                    if kk in t["msg"]:
+                        op_uses(t["msg"][kk], acc)
+            elif t["t"] == "call":
+                for a in t["args"]:
+                    op_uses(a, acc)
+                if t.get("fop"):
+                    op_uses(t["fop"], acc)
+                if t["dest"]["p"]:
+                    pl_uses(t["dest"], acc)
+            elif t["t"] == "drop":
+                pl_uses(t["pl"], acc)
+            elif t["t"] == "yield":
+                op_uses(t["value"], acc)
+            see(acc)
+            if t["t"] == "call" and not t["dest"]["p"]:
+                d.add(t["dest"]["l"])
+        live_in = [set() for _ in range(nb)]
+        changed = True
+        while changed:
+            changed = False
+            for bi in range(nb - 1, -1, -1):
+                out = set()
+                for s2 in b.successors(bi):
+                    out |= live_in[s2]
+                new = use[bi] | (out - defs[bi])
+                if new != live_in[bi]:
+                    live_in[bi] = new
+                    changed = True
+        return live_in, always
+
+    def mode_locals(self):
+        """bool locals that are only ever assigned constants: used as trace-partitioning keys"""
+        b = self.b
+        assigned = {}
+        for bl in b.blocks:
+            for s in bl["stmts"]:
+                if s["s"] == "assign" and not s["pl"]["p"]:
+                    l = s["pl"]["l"]
+                    rv = s["rv"]
+                    const = rv["k"] == "use" and rv["op"]["o"] == "const" and rv["op"]["k"]["c"] == "int"
+                    assigned.setdefault(l, []).append(const)
+            t = bl["term"]
+            if t["t"] == "call" and not t["dest"]["p"]:
+                assigned.setdefault(t["dest"]["l"], []).append(False)
+        names = b.local_names()
+        out = []
+        for l, cs in assigned.items():
+            if l in names and l > b.argc and b.local_ty(l)["k"] == "bool" and all(cs) and len(cs) >= 2:
+                out.append(l)
+        return sorted(out)[:3]
+
+    def mode_key(self, st):
+        key = []
+        for l in self.modes:
+            v = st.store.get("_%d" % l)
+            if v is not None and v[0] == "lin" and v[1].is_const():
+                key.append(v[1].c)
+            else:
+                key.append(None)
+        return tuple(key)
+
     def run(self):
         b = self.b
         order = self.rpo()
         pos = {n: i for i, n in enumerate(order)}
-        edge = {}
-        self.entry = {0: self.initial_state()}
-        complete_prev = {}
+        self.modes = self.mode_locals()
+        self.live_in, self.always_live = self.liveness()
+        self.cands = {}
+        self.dead_cands = {}
+        self.assumed_once = set()
+        edge = {}          # (src node, dst node) -> State
+        preds = {}         # dst node -> set of src nodes
+        init = self.initial_state()
+        n0 = (0, (self.mode_key(init), "s"))
+        self.entry = {n0: init}
+        nodes = {n0}
         converged = False
-        for it in range(14):
+        for it in range(24):
             changed = False
-            for n in order:
-                if n != 0:
-                    inc = [edge[(p, n)] for p in b.compute_preds()[n] if (p, n) in edge]
+            backset = self._back_edges(n0, edge)
+            for node in self._node_iter(order, nodes):
+                bi = node[0]
+                if node != n0:
+                    srcs = sorted(preds.get(node, ()), key=lambda n: (pos.get(n[0], 0), repr(n[1])))
+                    inc = [edge[(p, node)] for p in srcs]
                     if not inc:
                         continue
-                    ns = self.join(n, inc)
-                    prev = self.entry.get(n)
-                    if prev is not None and it > 3:
-                        ns.facts &= prev.facts | set(f for f in ns.facts if self._fresh_fact(f, prev))
+                    back = [(p, node) in backset for p in srcs]
+                    ns = self.join(node, inc, back)
+                    prev = self.entry.get(node)
                     if prev is None or prev.store != ns.store or prev.facts != ns.facts:
                         changed = True
-                    self.entry[n] = ns
-                st = self.entry[n].copy()
-                outs = self.transfer(n, st)
-                # several edges to the same successor from one block: join them
+                        if self.debug and it > 8:
+                            print("entry changed", it, node, prev is None)
+                    self.entry[node] = ns
+                st = self.entry[node].copy()
+                outs = self.transfer(bi, st)
                 by = {}
                 for s, s2 in outs:
-                    by.setdefault(s, []).append(s2)
-                for s, lst in by.items():
-                    if len(lst) == 1:
-                        e = lst[0]
+                    # trace partitioning on mode flags; the remainder of the iteration in which a flag
+                    # changes is peeled ("e" phase) and rejoins the steady state at the next back edge
+                    mk = self.mode_key(s2)
+                    if mk != node[1][0]:
+                        phase = "e"
+                    elif node[1][1] == "e" and pos.get(s, 0) <= pos.get(bi, 0):
+                        phase = "s"
                     else:
-                        e = self._meet_same_block(lst)
-                    old = edge.get((n, s))
+                        phase = node[1][1]
+                    dst = (s, (mk, phase))
+                    by.setdefault(dst, []).append(s2)
+                live = set()
+                for dst, lst in by.items():
+                    e = lst[0] if len(lst) == 1 else self._meet_same_block(lst)
+                    old = edge.get((node, dst))
                     if old is None or old.store != e.store or old.facts != e.facts:
                         changed = True
-                    edge[(n, s)] = e
+                        if self.debug and it > 8:
+                            print("edge changed", node, dst)
+                    edge[(node, dst)] = e
+                    preds.setdefault(dst, set()).add(node)
+                    live.add(dst)
+                    if dst not in nodes:
+                        nodes.add(dst)
+                        changed = True
+                # edges that disappeared (a branch became infeasible under new facts)
+                for (a, d) in [k for k in edge if k[0] == node and k[1] not in live]:
+                    del edge[(a, d)]
+                    preds[d].discard(a)
+                    changed = True
+                    if self.debug and it > 8:
+                        print("edge removed", a, d)
             if not changed:
                 converged = True
                 break
         self.converged = converged
-        # final pass: collect obligations and events with the fixpoint entry states
         self.final = True
         self.obligations = []
         self.events = []
-        for n in order:
-            if n not in self.entry:
+        merged = {}
+        for node in sorted(nodes, key=lambda n: (pos.get(n[0], 1 << 30), repr(n[1]))):
+            if node not in self.entry:
                 continue
-            st = self.entry[n].copy()
-            self.transfer(n, st)
+            if node != n0 and not preds.get(node):
+                continue
+            st = self.entry[node].copy()
+            n_before = len(self.obligations)
+            self.transfer(node[0], st)
+            # one obligation per construct: a site is discharged iff it is discharged in every partition
+            for o in self.obligations[n_before:]:
+                k = (o.bi, o.kind.replace(":wide", ""), o.snippet, o.what)
+                lst = merged.setdefault(k, [])
+                lst.append(o)
+        obs = []
+        for k, lst in merged.items():
+            # several constructs of one block keep their order; partitions of the same construct merge
+            groups = {}
+            for o in lst:
+                groups.setdefault(id(o) if False else None, []).append(o)
+            per_part = {}
+            for o in lst:
+                per_part.setdefault(len(per_part), o)
+            bad = [o for o in lst if not o.ok]
+            rep = bad[0] if bad else lst[0]
+            obs.append(rep)
+        self.obligations = sorted(obs, key=lambda o: (pos.get(o.bi, 0)))
         if not converged:
             for o in self.obligations:
                 if o.ok and o.why != "A-OVF":
                     o.ok = False
                     o.detail = "analysis did not converge for this body"
         return self
+
+    def _back_edges(self, n0, edge):
+        """edges of the (partitioned) node graph that close a cycle, by depth-first search from the entry"""
+        succ = {}
+        for (a, d) in edge:
+            succ.setdefault(a, []).append(d)
+        for a in succ:
+            succ[a].sort(key=lambda n: (n[0], repr(n[1])))
+        back = set()
+        color = {n0: 1}
+        stack = [(n0, iter(succ.get(n0, ())))]
+        while stack:
+            n, it = stack[-1]
+            adv = False
+            for d in it:
+                c = color.get(d, 0)
+                if c == 0:
+                    color[d] = 1
+                    stack.append((d, iter(succ.get(d, ()))))
+                    adv = True
+                    break
+                if c == 1:
+                    back.add((n, d))
+            if not adv:
+                color[n] = 2
+                stack.pop()
+        return back
+
+    def _node_iter(self, order, nodes):
+        """nodes in reverse post-order of their block; nodes created while iterating are picked up"""
+        for bi in order:
+            done = set()
+            while True:
+                cur = sorted((n for n in nodes if n[0] == bi and n not in done), key=lambda n: repr(n[1]))
+                if not cur:
+                    break
+                for n in cur:
+                    done.add(n)
+                    yield n
 
     def _fresh_fact(self, f, prev):
         return False
